@@ -172,6 +172,12 @@ func verifH_C01_ack() {
 	o := verifOutState(4, 4, w1, wr, wp, verifParam("storefaults", 1))
 	c := o.c
 	o.online(verifParam("wfaults", 1))
+	if verifParam("foreign", 0) == 1 {
+		// another routine's write failed just before: connection closed by
+		// that writer, write token left at connPending
+		o.conn.Close()
+		verifSetWriteToken(c, connPending)
+	}
 	body := verifBytes("ackid", 2)
 	id := uint(body[0])<<8 | uint(body[1])
 	c.peek = body
